@@ -116,6 +116,8 @@ def tokenize_asm(op) -> tuple[list[str], list[int]]:
         return ["insn"], [int(m.group(1)), int(m.group(2), 0), int(m.group(3), 0)]
     if s == "nop":
         return ["nop"], []
+    if re.match(r"csrr\s+zero\s*,\s*mcycle$", s):
+        return ["mcycle"], []
     m = re.match(r"\.insn r CUSTOM_(\d), (0x[0-9a-fA-F]+|\d+), (0x[0-9a-fA-F]+|\d+),\s*\$0,\s*\$1,\s*\$2$", s)
     if m:
         return ["insn_rd"], [int(m.group(1)), int(m.group(2), 0), int(m.group(3), 0)]
